@@ -320,6 +320,7 @@ def pack(n, fields, family, per=60, passes=None, options=True, **kw):
                 extra['default_form'] = 'const' if k % 8 >= 4 else 'lit'
             if opt in (2, 3) and can_debug:
                 extra['debug'] = True
+                extra['debug_first'] = (k % 8 >= 4)      # `bitfield(uN, debug, default = x)` as well as `(uN, default = x, debug)`
             # user derives are passed through by the macro
             d = k % 3
             if d == 1:
